@@ -9,6 +9,7 @@
 #include <rime/resource.h>
 #include <rime/schema.h>
 #include <rime/service.h>
+#include <rime/verif_hooks.h>
 
 using namespace std::placeholders;
 
@@ -84,6 +85,7 @@ void Service::StopService() {
 
 SessionId Service::CreateSession() {
   SessionId id = kInvalidSessionId;
+  RIME_VERIF_YIELD("service.create_session");
   if (disabled())
     return id;
   try {
@@ -106,6 +108,7 @@ SessionId Service::CreateSession() {
 }
 
 an<Session> Service::GetSession(SessionId session_id) {
+  RIME_VERIF_YIELD("service.get_session");
   if (disabled())
     return nullptr;
   SessionMap::iterator it = sessions_.find(session_id);
@@ -159,6 +162,7 @@ void Service::ClearNotificationHandler() {
 void Service::Notify(SessionId session_id,
                      const string& message_type,
                      const string& message_value) {
+  RIME_VERIF_YIELD("service.notify");
   std::lock_guard<std::mutex> lock(mutex_);
   if (notification_handler_) {
     notification_handler_(session_id, message_type.c_str(),
